@@ -128,36 +128,8 @@ func c13Mine(c *Ctx, rel string) {
 			r.OK(key, c.P.Pos(sc.cell.Pos()), "shared variable %s: %s (%s)", sc.name, kind, detail)
 		}
 	}
-	// no global writes in anything the goroutines reach
-	for _, root := range []*ssa.Function{watcher, worker} {
-		for _, fn := range reachableRepoAndDeps(root) {
-			if fn.Pkg == nil {
-				continue
-			}
-			for _, blk := range fn.Blocks {
-				for _, ins := range blk.Instrs {
-					switch x := ins.(type) {
-					case *ssa.Store:
-						if g, ok := x.Addr.(*ssa.Global); ok {
-							r.Viol(K("C13.shared-access.no-global-writes"), c.ipos(x), "%s, reachable from a Mine goroutine, writes package variable %s", fn.Name(), g.Name())
-						}
-					case ssa.CallInstruction:
-						cc := x.Common()
-						fb := ana.NewBuilder(c.P, fn)
-						for i, a := range cc.Args {
-							root := fb.Root(a)
-							if ld, ok := root.(*ssa.UnOp); ok {
-								if g, isG := ld.X.(*ssa.Global); isG && fb.MayMutateOperand(cc, i) && ana.InRepo(fn) {
-									r.Viol(K("C13.shared-access.no-global-writes"), c.ipos(x), "%s, reachable from a Mine goroutine, mutates the object held in package variable %s via %s (workers run concurrently)", fn.Name(), g.Name(), ana.CalleeName(cc))
-								}
-							}
-						}
-					}
-				}
-			}
-		}
-	}
-	r.OK(K("C13.shared-access.global-scan"), c.P.Pos(f.Pos()), "scanned %d functions reachable from the goroutines for writes to package-level state", len(reachableRepoAndDeps(worker))+len(reachableRepoAndDeps(watcher)))
+	// no package-level mutable state in anything the goroutines reach
+	pureScan(c, K("C13.shared-access.no-global-writes"), watcher, worker)
 
 	// ---- channels
 	var results, closing *ssa.Alloc
